@@ -1,7 +1,8 @@
 """C17 — dependency cycles are always diagnosed, and only real ones (DESIGN 5.17)."""
 from facts import AnalysisBroken
-from model import (dstr, strip, fact_holds, mentions_field, mentions_call, mentions_var,
+from model import (ret_value_class, dstr, strip, fact_holds, mentions_field, mentions_call, mentions_var,
                    mentions_enum, const_value, walk)
+from props.scan_common import check_build_exit_codes
 from rules import (guarded, calls_to, field_writes, who_may_call, must_pass, dominated_by,
                    full_range, loops_over, every_iteration_passes, basename, error_discipline,
                    origins, reject_if, skip_conditions_exact, is_enum, is_field, atom_cmp,
@@ -202,7 +203,44 @@ def run(ctx):
                     'Unmark:extra-skip')
     # the recursion covers all outputs of an unmarked edge
     full_range(ctx, 'C17.O2', um, 'Edge::outputs_', 'dependents of every output are unmarked')
-    ctx.floor('C17.O2', 4)
+    # ... and descends through every output that was not visited yet (nothing else prunes the walk:
+    # the re-scan that follows is the only mid-build cycle check)
+    rec = list(um.calls('Plan::UnmarkDependents'))
+    ctx.check('C17.O2', len(rec) == 1, um.name, 'Unmark:recursion-sites', um.loc, 'one recursive descent')
+    for e in rec:
+        for bid, b in um.blocks.items():
+            t = b.get('term')
+            if t and t['kind'] in ('for', 'range', 'while') and len(b['succ']) == 2 and \
+                    e['_b'] in um.reachable_from(b['succ'][0]) | {b['succ'][0]} and \
+                    'Edge::outputs_' in dstr(t.get('cond')):
+                loop = {'header': bid, 'body': b['succ'][0], 'line': t['line'], 'bound': 'edge->outputs_'}
+                skip_conditions_exact(
+                    ctx, 'C17.O2', um, loop, lambda x: x is e,
+                    [(lambda a: 'insert' in dstr(a) and 'second' in dstr(a), False)],
+                    'the walk descends through every output unless it is already in the visited set',
+                    'Unmark:descent-pruned')
+    ctx.floor('C17.O2', 6)
+
+    # ---- O3: outputs added by a dyndep load get their consumers re-scanned ------------------------
+    R('C17.O3', 'O', 'a dyndep load performed by the scan machinery can give an edge new outputs; '
+      'consumers of such an output that were already scanned (VisitDone) are unmarked and scanned '
+      'again, otherwise a cycle closed through them stays unseen')
+    refresh = {f.id for f in prog.fns('Plan::RefreshDyndepDependents')}
+    n3 = 0
+    for f in prog.functions.values():
+        if f.cls == 'DependencyScan' and f.name == 'DependencyScan::LoadDyndeps':
+            continue
+        for e in f.calls('DependencyScan::LoadDyndeps'):
+            n3 += 1
+            def rescans(x):
+                if x['k'] != 'call':
+                    return False
+                return bool(refresh & prog.reachable_fns(prog.call_targets(x)))
+            r = f.find_path(e, lambda x: x['k'] == 'ret' and ret_value_class(prog, f, x) == 'success', is_blocker=rescans)
+            ctx.check('C17.O3', r is None, f.name, 'dyndep-load:consumers-not-rescanned', f.where(e),
+                      'after DependencyScan::LoadDyndeps in %s every success path re-scans the dependents '
+                      '(Plan::RefreshDyndepDependents)' % f.name)
+    ctx.floor('C17.O3', 2)
 
     # ---- E1: a cycle error is propagated -------------------------------------------------------
     R('C17.E1', 'E1', 'error discipline over the scan (graph.cc): a failed VerifyDAG / nested scan '
@@ -211,4 +249,5 @@ def run(ctx):
     error_discipline(ctx, 'C17.E1', fns)
     at = [f for f in prog.fns('Builder::AddTarget')]
     error_discipline(ctx, 'C17.E1', at + [prog.fn('Plan::RefreshDyndepDependents'), prog.fn('Plan::DyndepsLoaded')])
-    ctx.floor('C17.E1', 20)
+    check_build_exit_codes(ctx, 'C17.E1', prog)
+    ctx.floor('C17.E1', 21)
